@@ -204,6 +204,23 @@ def run(rep: Report) -> None:
     except Raised as e:
         rep.refuted("reader-writer", "lookups after construction", rel, f"raises {e.exc}: {e.msg}", key="rw|raise")
 
+    # the link views read back exactly the edges written (two-way road, self-loop)
+    from ..histories import views_vs_graph
+
+    gw = GWorld(prog, "casadi")
+    it = gw.interp()
+    n1, n2, n3 = gw.node("n1"), gw.node("n2"), gw.node("n3")
+    ls = [gw.link(f"l{i}") for i in range(1, 5)]
+    try:
+        _call(prog, gw, it, "add_link", n1, ls[0], n2)
+        _call(prog, gw, it, "add_link", n2, ls[1], n1)
+        _call(prog, gw, it, "add_links", [(n2, ls[2], n2), (n2, ls[3], n3)])
+        d_ = views_vs_graph(gw, it)
+        rep.check(d_ is None, "reader-writer", "link views after add_link n1->n2, n2->n1, add_links [n2->n2, n2->n3]",
+                  f"{prog.module('sym_metanet.views').relpath}", d_ or "", key="rw|views-graph")
+    except Raised as e:
+        rep.refuted("reader-writer", "link views after construction", rel, f"raises {e.exc}: {e.msg}", key="rw|views-raise")
+
     # ------------------------------------------------------------- (c) add_path
     maxlen = 7 if rep.tier == "thorough" else 5
     n_shapes = 0
